@@ -1,11 +1,314 @@
-From Coq Require Import List ZArith Bool Arith.
-From Koala Require Import Model.Cnf Model.Color Proofs.CnfFacts.
+(* Props/C04.v — SAT-based colourings and dimerisations are sound, complete and exact.
+
+   Model: coq/Model/Cnf.v (CNF, pysat model lists, pairwise exactly-one = CardEnc contract, argmax),
+   coq/Model/Color.v (edge_color / vertex_color / color_lattice / dimerise as coded in /repo, the
+   independent backtracking counter, the boolean spec checkers).  Every statement below is for
+   EVERY multigraph (list of vertex pairs; parallel edges and self-loops allowed) and EVERY number of
+   colours; nothing is bounded.
+
+   Reading guide.  A "model" m is the list [±1;...;±N] pysat returns; "wf_model (maxvar f) m" says it
+   is a total assignment over the variables 1..maxvar f; "eval_cnf (val m) f" that it satisfies f.
+   proper_edge_coloring / proper_vertex_coloring / perfect_matching are the property's notions of a
+   valid answer (Proofs/ColorFacts.v, stated with equalities on endpoints only).
+
+   NOT covered by a theorem (S/K in harness/c04.py only): that koala's Python produces exactly the
+   model's clauses (K: clause-set comparison at the pysat boundary), the behaviour of glucose3 and of
+   CardEnc (Section-variable contract [solver_contract] / definition [equals1], exercised at run time),
+   the float arctan2 order computed by clockwise_edges_about (an input [cw] of color_lattice), numpy's
+   IndexError / negative-index wrapping for fixed pairs out of range ([Invalid]). *)
+From Coq Require Import List ZArith Bool Arith Lia.
+From Koala Require Import Model.Cnf Model.Color Proofs.CnfFacts Proofs.ColorFacts Proofs.ColorCount.
 Import ListNotations.
 
-(* mechanism "exactly-one constraint per item via pairwise cardinality encoding": the clauses
-   CardEnc.equals(lits, bound=1, pairwise) emits hold exactly when one of the literals is true *)
+(* ---------------------------------------------------------------- mechanism: exactly-one per item *)
+
+(* the clauses CardEnc.equals(lits, bound=1, pairwise) emits hold exactly when one literal is true *)
 Theorem C04_pairwise_exactly_one :
   forall (nu : valuation) (l : list Z), Forall (fun a => (0 < a)%Z) l ->
     eval_cnf nu (equals1 l) = (length (filter nu l) =? 1).
 Proof. exact eval_equals1. Qed.
 Print Assumptions C04_pairwise_exactly_one.
+
+(* ---------------------------------------------------------------- edge_color: the formula *)
+
+(* soundness: every satisfying total assignment decodes (reshape + argmax) to colours in range,
+   different on edges meeting at a vertex, with the fixed colours honoured *)
+Theorem C04_edge_color_sound :
+  forall (edges : list edge) (n : nat) (fixed : list (nat * nat)) (f : cnf) (m : model),
+    edge_color_cnf edges n fixed = Some f ->
+    wf_model (maxvar f) m = true -> eval_cnf (val m) f = true ->
+    proper_edge_coloring edges n fixed (decode_colors (length edges) n m).
+Proof. exact edge_color_cnf_sound. Qed.
+Print Assumptions C04_edge_color_sound.
+
+(* completeness: every valid colouring is the decoding of a satisfying assignment, hence the formula
+   is unsatisfiable only when no valid colouring exists *)
+Theorem C04_edge_color_complete :
+  forall (edges : list edge) (n : nat) (fixed : list (nat * nat)) (f : cnf) (c : list nat),
+    edge_color_cnf edges n fixed = Some f -> proper_edge_coloring edges n fixed c ->
+    exists m, wf_model (maxvar f) m = true /\ eval_cnf (val m) f = true /\ decode_colors (length edges) n m = c.
+Proof. exact edge_color_cnf_complete. Qed.
+Print Assumptions C04_edge_color_complete.
+
+(* exactness: decoding is injective on the satisfying total assignments (so, with the two theorems
+   above, a bijection onto the valid colourings: enumerating models lists each colouring once) *)
+Theorem C04_edge_color_exact :
+  forall (edges : list edge) (n : nat) (fixed : list (nat * nat)) (f : cnf) (m1 m2 : model),
+    edge_color_cnf edges n fixed = Some f ->
+    wf_model (maxvar f) m1 = true -> eval_cnf (val m1) f = true ->
+    wf_model (maxvar f) m2 = true -> eval_cnf (val m2) f = true ->
+    decode_colors (length edges) n m1 = decode_colors (length edges) n m2 -> m1 = m2.
+Proof. exact edge_color_cnf_exact. Qed.
+Print Assumptions C04_edge_color_exact.
+
+(* the formula exists for every n_colors >= 1 and every in-range fixed list *)
+Theorem C04_edge_color_defined :
+  forall (edges : list edge) (n : nat) (fixed : list (nat * nat)),
+    0 < n -> fixed_in_range (length edges) n fixed -> exists f, edge_color_cnf edges n fixed = Some f.
+Proof. exact edge_color_cnf_defined. Qed.
+Print Assumptions C04_edge_color_defined.
+
+(* ---------------------------------------------------------------- vertex_color: the formula (after fix c7f4827) *)
+
+Theorem C04_vertex_color_sound :
+  forall (adj : list edge) (n : nat) (f : cnf) (m : model),
+    vertex_color_cnf adj n = Some f ->
+    wf_model (maxvar f) m = true -> eval_cnf (val m) f = true ->
+    proper_vertex_coloring adj n (decode_colors (nverts adj) n m).
+Proof. exact vertex_color_cnf_sound. Qed.
+Print Assumptions C04_vertex_color_sound.
+
+Theorem C04_vertex_color_complete :
+  forall (adj : list edge) (n : nat) (f : cnf) (c : list nat),
+    vertex_color_cnf adj n = Some f -> proper_vertex_coloring adj n c ->
+    exists m, wf_model (maxvar f) m = true /\ eval_cnf (val m) f = true /\ decode_colors (nverts adj) n m = c.
+Proof. exact vertex_color_cnf_complete. Qed.
+Print Assumptions C04_vertex_color_complete.
+
+Theorem C04_vertex_color_exact :
+  forall (adj : list edge) (n : nat) (f : cnf) (m1 m2 : model),
+    vertex_color_cnf adj n = Some f ->
+    wf_model (maxvar f) m1 = true -> eval_cnf (val m1) f = true ->
+    wf_model (maxvar f) m2 = true -> eval_cnf (val m2) f = true ->
+    decode_colors (nverts adj) n m1 = decode_colors (nverts adj) n m2 -> m1 = m2.
+Proof. exact vertex_color_cnf_exact. Qed.
+Print Assumptions C04_vertex_color_exact.
+
+Theorem C04_vertex_color_defined :
+  forall (adj : list edge) (n : nat), 0 < n -> adj <> [] -> exists f, vertex_color_cnf adj n = Some f.
+Proof. exact vertex_color_cnf_defined. Qed.
+Print Assumptions C04_vertex_color_defined.
+
+(* ---------------------------------------------------------------- dimerise: the formula *)
+
+(* every vertex v < n_vertices touches exactly one chosen edge; output (sign + 1) // 2 *)
+Theorem C04_dimerise_sound :
+  forall (nv : nat) (edges : list edge) (m : model),
+    edges_in_range nv edges ->
+    wf_model (maxvar (dimer_cnf nv edges)) m = true -> eval_cnf (val m) (dimer_cnf nv edges) = true ->
+    perfect_matching nv edges (decode_dimer m).
+Proof. exact dimer_cnf_sound. Qed.
+Print Assumptions C04_dimerise_sound.
+
+Theorem C04_dimerise_complete :
+  forall (nv : nat) (edges : list edge) (d : list nat),
+    edges_in_range nv edges -> perfect_matching nv edges d ->
+    exists m, wf_model (maxvar (dimer_cnf nv edges)) m = true /\ eval_cnf (val m) (dimer_cnf nv edges) = true
+              /\ decode_dimer m = d.
+Proof. exact dimer_cnf_complete. Qed.
+Print Assumptions C04_dimerise_complete.
+
+Theorem C04_dimerise_exact :
+  forall (nv : nat) (edges : list edge) (m1 m2 : model),
+    edges_in_range nv edges ->
+    wf_model (maxvar (dimer_cnf nv edges)) m1 = true -> eval_cnf (val m1) (dimer_cnf nv edges) = true ->
+    wf_model (maxvar (dimer_cnf nv edges)) m2 = true -> eval_cnf (val m2) (dimer_cnf nv edges) = true ->
+    decode_dimer m1 = decode_dimer m2 -> m1 = m2.
+Proof. exact dimer_cnf_exact. Qed.
+Print Assumptions C04_dimerise_exact.
+
+(* ---------------------------------------------------------------- end to end, solver = Section variable
+
+   [solver_contract solve get_model enum_models]: solve f = true iff a total model over 1..maxvar f
+   exists; get_model f is one after a successful solve; enum_models f lists every total model exactly
+   once.  Under it, EVERY outcome of EVERY mode is characterised:
+     Unsolvable        -> no valid assignment exists                      (completeness of the verdict)
+     Solution c        -> c is valid                                      (soundness)
+     Solutions cs, all -> cs has no repeats and is exactly the valid ones (exactness)
+     Solutions cs, first j -> cs = the first j of such a complete repeat-free list
+     Invalid           -> only outside the stated domain. *)
+
+Theorem C04_edge_color_end_to_end :
+  forall solve get_model enum_models, solver_contract solve get_model enum_models ->
+  forall (edges : list edge) (n : nat) (md : mode) (fixed : list (nat * nat)),
+    let P := proper_edge_coloring edges n fixed in
+    match edge_color solve get_model enum_models edges n md fixed with
+    | Invalid => ~ (0 < n /\ fixed_in_range (length edges) n fixed)
+    | Unsolvable => forall c, ~ P c
+    | Solution c => md = Single /\ P c
+    | Solutions cs =>
+        NoDup cs /\ (forall c, In c cs -> P c)
+        /\ match md with
+           | AllSolutions => forall c, P c -> In c cs
+           | FirstN j => exists all, NoDup all /\ (forall c, In c all <-> P c) /\ cs = firstn j all
+           | Single => False
+           end
+    end.
+Proof. exact edge_color_end_to_end. Qed.
+Print Assumptions C04_edge_color_end_to_end.
+
+Theorem C04_vertex_color_end_to_end :
+  forall solve get_model enum_models, solver_contract solve get_model enum_models ->
+  forall (adj : list edge) (n : nat) (all_solutions : bool),
+    let P := proper_vertex_coloring adj n in
+    match vertex_color solve get_model enum_models adj n all_solutions with
+    | Invalid => ~ (0 < n /\ adj <> [])
+    | Unsolvable => forall c, ~ P c
+    | Solution c => all_solutions = false /\ P c
+    | Solutions cs => all_solutions = true /\ NoDup cs /\ (forall c, In c cs <-> P c)
+    end.
+Proof. exact vertex_color_end_to_end. Qed.
+Print Assumptions C04_vertex_color_end_to_end.
+
+(* Unsolvable = the ValueError of the wrapper *)
+Theorem C04_dimerise_end_to_end :
+  forall solve get_model enum_models, solver_contract solve get_model enum_models ->
+  forall (nv : nat) (edges : list edge) (ns : option nat), edges_in_range nv edges ->
+    let P := perfect_matching nv edges in
+    match dimerise solve enum_models nv edges ns with
+    | Invalid => False
+    | Unsolvable => forall d, ~ P d
+    | Solution d => ns = Some 1 /\ P d
+    | Solutions ds =>
+        NoDup ds /\ (forall d, In d ds -> P d)
+        /\ match ns with
+           | None => forall d, P d -> In d ds
+           | Some j => exists all, NoDup all /\ (forall d, In d all <-> P d) /\ ds = firstn j all
+           end
+    end.
+Proof. exact dimerise_end_to_end. Qed.
+Print Assumptions C04_dimerise_end_to_end.
+
+(* color_lattice: a valid 3-colouring in which the i-th edge of clockwise_edges_about(0) has colour i;
+   ValueError (Unsolvable) only when no such colouring exists *)
+Theorem C04_color_lattice_fixes_vertex0 :
+  forall solve get_model enum_models, solver_contract solve get_model enum_models ->
+  forall (edges : list edge) (cw : list nat),
+    let P := fun c => proper_edge_coloring edges 3 [] c /\ forall i, i < length cw -> nth (nth i cw 0) c 0 = i in
+    match color_lattice solve get_model enum_models edges cw with
+    | Invalid => ~ (length cw <= 3 /\ forall e, In e cw -> e < length edges)
+    | Unsolvable => forall c, ~ P c
+    | Solution c => P c
+    | Solutions _ => False
+    end.
+Proof. exact color_lattice_end_to_end. Qed.
+Print Assumptions C04_color_lattice_fixes_vertex0.
+
+(* the contract is realisable (exhaustive search implements it): the four theorems above are not vacuous *)
+Theorem C04_solver_contract_realisable : solver_contract brute_solve brute_get brute_enum.
+Proof. exact brute_solver_contract. Qed.
+Print Assumptions C04_solver_contract_realisable.
+
+(* ---------------------------------------------------------------- the oracle and the checkers used by S
+
+   The independent backtracking enumerator (no CNF involved) lists exactly the valid assignments, each
+   once; its count is the length of ANY repeat-free complete list; its existence test is exact. *)
+
+Theorem C04_edge_counter_correct :
+  forall (edges : list edge) (n : nat) (fixed : list (nat * nat)),
+    fixed_in_range (length edges) n fixed ->
+    let P := proper_edge_coloring edges n fixed in
+    NoDup (list_edge_colourings edges n fixed)
+    /\ (forall c, In c (list_edge_colourings edges n fixed) <-> P c)
+    /\ (exists_edge_colouring edges n fixed = true <-> exists c, P c)
+    /\ forall all, NoDup all -> (forall c, In c all <-> P c) ->
+                   count_edge_colourings edges n fixed = Z.of_nat (length all).
+Proof. exact edge_counter_correct. Qed.
+Print Assumptions C04_edge_counter_correct.
+
+Theorem C04_vertex_counter_correct :
+  forall (adj : list edge) (n : nat),
+    let P := proper_vertex_coloring adj n in
+    NoDup (list_vertex_colourings adj n)
+    /\ (forall c, In c (list_vertex_colourings adj n) <-> P c)
+    /\ (exists_vertex_colouring adj n = true <-> exists c, P c)
+    /\ forall all, NoDup all -> (forall c, In c all <-> P c) ->
+                   count_vertex_colourings adj n = Z.of_nat (length all).
+Proof. exact vertex_counter_correct. Qed.
+Print Assumptions C04_vertex_counter_correct.
+
+Theorem C04_dimer_counter_correct :
+  forall (nv : nat) (edges : list edge),
+    edges_in_range nv edges ->
+    let P := perfect_matching nv edges in
+    NoDup (list_dimerisations nv edges)
+    /\ (forall d, In d (list_dimerisations nv edges) <-> P d)
+    /\ (exists_dimerisation nv edges = true <-> exists d, P d)
+    /\ forall all, NoDup all -> (forall d, In d all <-> P d) ->
+                   count_dimerisations nv edges = Z.of_nat (length all).
+Proof. exact dimer_counter_correct. Qed.
+Print Assumptions C04_dimer_counter_correct.
+
+(* the boolean checkers run on koala's outputs decide the property's notions *)
+Theorem C04_edge_checker_correct :
+  forall edges n fixed c, valid_edge_coloringb edges n fixed c = true <-> proper_edge_coloring edges n fixed c.
+Proof. exact valid_edge_coloringb_spec. Qed.
+Print Assumptions C04_edge_checker_correct.
+
+Theorem C04_vertex_checker_correct :
+  forall adj n c, valid_vertex_coloringb adj n c = true <-> proper_vertex_coloring adj n c.
+Proof. exact valid_vertex_coloringb_spec. Qed.
+Print Assumptions C04_vertex_checker_correct.
+
+Theorem C04_dimer_checker_correct :
+  forall nv edges d, valid_dimerb nv edges d = true <-> perfect_matching nv edges d.
+Proof. exact valid_dimerb_spec. Qed.
+Print Assumptions C04_dimer_checker_correct.
+
+(* ---------------------------------------------------------------- non-vacuity on concrete instances *)
+
+Definition triangle : list edge := [(0, 1); (1, 2); (2, 0)].
+(* a multigraph: a doubled edge, a pendant edge and a self-loop at vertex 3 *)
+Definition multi : list edge := [(0, 1); (1, 0); (1, 2); (3, 3); (2, 3)].
+
+(* hypotheses of sound/exact are satisfiable: triangle, 3 colours, edge 0 fixed to colour 1 *)
+Example C04_edge_color_nonvacuous :
+  exists f m, edge_color_cnf triangle 3 [(1, 0)] = Some f
+              /\ wf_model (maxvar f) m = true /\ eval_cnf (val m) f = true
+              /\ decode_colors 3 3 m = [1; 0; 2]
+              /\ proper_edge_coloring triangle 3 [(1, 0)] [1; 0; 2].
+Proof.
+  eexists. exists (encode_colors 3 3 [1; 0; 2]).
+  split; [reflexivity|]. split; [vm_compute; reflexivity|]. split; [vm_compute; reflexivity|].
+  split; [vm_compute; reflexivity|].
+  apply valid_edge_coloringb_spec. vm_compute. reflexivity.
+Qed.
+
+(* end to end with the exhaustive solver: vertex 1 of the multigraph has degree 3, so 2 colours are
+   reported unsolvable (and the independent counter agrees); 3 colours suffice *)
+Example C04_edge_color_unsat_nonvacuous :
+  edge_color brute_solve brute_get brute_enum multi 2 Single [] = Unsolvable
+  /\ exists_edge_colouring multi 2 [] = false
+  /\ exists_edge_colouring multi 3 [] = true.
+Proof. vm_compute. auto. Qed.
+
+Example C04_vertex_color_nonvacuous :
+  exists cs, vertex_color brute_solve brute_get brute_enum triangle 3 true = Solutions cs
+             /\ length cs = 6 /\ count_vertex_colourings triangle 3 = 6%Z.
+Proof. eexists. vm_compute. auto. Qed.
+
+(* the 4-cycle has two perfect matchings *)
+Example C04_dimerise_nonvacuous :
+  dimerise brute_solve brute_enum 4 [(0, 1); (1, 2); (2, 3); (3, 0)] None = Solutions [[0; 1; 0; 1]; [1; 0; 1; 0]]
+  /\ count_dimerisations 4 [(0, 1); (1, 2); (2, 3); (3, 0)] = 2%Z
+  /\ edges_in_range 4 [(0, 1); (1, 2); (2, 3); (3, 0)].
+Proof.
+  split; [vm_compute; reflexivity|]. split; [vm_compute; reflexivity|].
+  intros e [<-|[<-|[<-|[<-|[]]]]]; simpl; lia.
+Qed.
+
+(* vertex 0 has the three edges 0,1,2; cw = [2; 0; 1] is a possible clockwise order *)
+Example C04_color_lattice_nonvacuous :
+  exists c, color_lattice brute_solve brute_get brute_enum [(0, 1); (0, 2); (0, 3); (1, 2)] [2; 0; 1] = Solution c
+            /\ nth 2 c 9 = 0 /\ nth 0 c 9 = 1 /\ nth 1 c 9 = 2.
+Proof. eexists. vm_compute. auto. Qed.
